@@ -2038,9 +2038,17 @@ impl DB {
         let mut files_to_delete: Vec<PathBuf> = vec![];
         #[cfg(feature = "verif")]
         let mut verif_listed: Vec<(&'static str, String)> = vec![];
+        #[cfg(feature = "verif")]
+        let mut verif_listing: Vec<(&'static str, String)> = vec![];
 
         // Check WAL file directory for stale files
         if let Ok(wal_files) = filesystem_provider.list_dir(&file_name_handler.get_wal_dir()) {
+            #[cfg(feature = "verif")]
+            verif_listing.extend(
+                wal_files
+                    .iter()
+                    .map(|path| ("wal", path.to_string_lossy().to_string())),
+            );
             for file in wal_files {
                 match filesystem_provider.is_dir(&file) {
                     Ok(is_dir) => {
@@ -2105,6 +2113,12 @@ impl DB {
 
         // Check data directory for stale table files
         if let Ok(data_files) = filesystem_provider.list_dir(&file_name_handler.get_data_dir()) {
+            #[cfg(feature = "verif")]
+            verif_listing.extend(
+                data_files
+                    .iter()
+                    .map(|path| ("data", path.to_string_lossy().to_string())),
+            );
             for file in data_files {
                 match filesystem_provider.is_dir(&file) {
                     Ok(is_dir) => {
@@ -2165,6 +2179,12 @@ impl DB {
 
         // Check main directory for stale files
         if let Ok(files) = filesystem_provider.list_dir(&file_name_handler.get_db_path()) {
+            #[cfg(feature = "verif")]
+            verif_listing.extend(
+                files
+                    .iter()
+                    .map(|path| ("main", path.to_string_lossy().to_string())),
+            );
             for file in files {
                 match filesystem_provider.is_dir(&file) {
                     Ok(is_dir) => {
@@ -2245,6 +2265,7 @@ impl DB {
                 prev_wal_number: db_fields_guard.version_set.maybe_prev_wal_number(),
                 manifest_number: db_fields_guard.version_set.get_manifest_file_number(),
                 listed: verif_listed,
+                listing: verif_listing,
                 deleted: files_to_delete
                     .iter()
                     .map(|path| path.to_string_lossy().to_string())
